@@ -414,7 +414,8 @@ class Angle(object):
         """
 
         self.set(*args)  # Carry out a standard set(), without *kwargs
-        self._deg *= 15.0  # Multipy Right Ascension by 15.0 to get degrees
+        # Multipy Right Ascension by 15.0 to get degrees, and keep them in range
+        self._deg = Angle.reduce_deg(self._deg * 15.0)
         return
 
     def dms_str(self, fancy=True, n_dec=-1):
